@@ -157,6 +157,11 @@ let register (reg : string -> (string list -> string) -> unit) =
     | _ -> failwith "args");
   reg "pagescript" pagescript;
   reg "wqscript" wqscript;
+  reg "checktruncate" (fun a -> match a with
+    | [l; s; mm; mx; ps] ->
+      let (e, t) = check_truncate (z_of_string l) (z_of_string s) (z_of_string mm) (z_of_string mx) (z_of_string ps) in
+      string_of_z e ^ " " ^ bool_tok t
+    | _ -> failwith "args");
   (* lockscript s p r op... : per op the new state, or B when the op would block (state unchanged) *)
   reg "lockscript" (fun a -> match a with
     | s :: p :: r :: ops ->
